@@ -71,8 +71,15 @@ def check_entries(lines, sections, entries, path, check_prov=True):
         for idx, k in enumerate(want):
             fd = next(e for e in entries if e["group"] == gg and e["key"] == k)
             kk, verr, val = v.vals.get((g, idx), (None, 1, None))
-            if verr != 0 or val != fd["value"]:
-                return "lookup of %r/%r gives %r (E%d), expected first definition %r" % (g, k, val, verr, fd["value"])
+            # the value getters take a section name with or without surrounding brackets (C11): the listed name "[unit]" of a
+            # section written [[unit]] denotes the section "unit" there
+            lg = gg[1:].split(b"]")[0] if (gg[:1] == b"[" and gg[-1:] == b"]") else gg
+            ld = next((e for e in entries if e["group"] == lg and e["key"] == k), None)
+            if ld is None:
+                if verr != 5:
+                    return "lookup of %r/%r gives %r (E%d), expected no such key" % (g, k, val, verr)
+            elif verr != 0 or val != ld["value"]:
+                return "lookup of %r/%r gives %r (E%d), expected first definition %r" % (g, k, val, verr, ld["value"])
             if check_prov:
                 x = v.ext.get((g, idx))
                 if x is None or x["err"] != 0:
